@@ -106,7 +106,9 @@ func (r *Run) matchKnown(sig string) *Finding {
 func (r *Run) IsKnown(sig string) bool { return r.matchKnown(sig) != nil }
 
 // Report records an oracle failure. Returns true if it is a listed known finding.
-func (r *Run) Report(sig, what string, replay interface{}) bool { return r.ReportN(sig, what, replay, 1) }
+func (r *Run) Report(sig, what string, replay interface{}) bool {
+	return r.ReportN(sig, what, replay, 1)
+}
 
 // ReportN records n occurrences of the same oracle failure.
 func (r *Run) ReportN(sig, what string, replay interface{}, n int) bool {
@@ -138,7 +140,12 @@ func (r *Run) Add(k string, n int64) {
 	r.mu.Unlock()
 }
 
-func (r *Run) Get(k string) int64 { r.mu.Lock(); defer r.mu.Unlock(); v, _ := r.Cov[k].(int64); return v }
+func (r *Run) Get(k string) int64 {
+	r.mu.Lock()
+	defer r.mu.Unlock()
+	v, _ := r.Cov[k].(int64)
+	return v
+}
 
 func (r *Run) Sample(s interface{}) {
 	r.mu.Lock()
